@@ -189,6 +189,39 @@ func genC18(g *gen) {
 		}
 	}
 	g.line("Definition gen_push_refused_when_closed : bool := %s.", coqBool(pushRefuses))
+	// PushData waits for room without a timeout or drop branch: its blocking select
+	// has exactly the send arm and the closed arm, and the function uses no timer
+	pushBlocks := false
+	if fd := findFunc(f, "Stream", "PushData"); fd != nil && fd.Body != nil {
+		body := src(fd.Body)
+		var sels []*ast.SelectStmt
+		for _, st := range fd.Body.List {
+			if sel, ok := st.(*ast.SelectStmt); ok {
+				sels = append(sels, sel)
+			}
+		}
+		if len(sels) == 2 && len(sels[1].Body.List) == 2 && !strings.Contains(body, "time.") && !strings.Contains(body, "default:\n\t\treturn") {
+			send, closed := false, false
+			for _, cl := range sels[1].Body.List {
+				cc := cl.(*ast.CommClause)
+				if cc.Comm == nil {
+					continue
+				}
+				c := src(cc.Comm)
+				if strings.Contains(c, "s.readBuffer <-") {
+					send = true
+				}
+				if strings.Contains(c, "<-s.closed") {
+					closed = true
+				}
+			}
+			pushBlocks = send && closed
+		}
+	}
+	if !pushBlocks {
+		g.note("PushData: the blocking select is not {send, closed} or the function uses a timer")
+	}
+	g.line("Definition gen_push_waits_without_timeout : bool := %s.", coqBool(pushBlocks))
 
 	// ---- receivers of STREAM_DATA other than stream.Manager: the payload is
 	// delivered whatever the flags say, and before the FIN_WRITE handling
